@@ -11,7 +11,7 @@ OPS = ["out d 0 0", "out d 0 1", "out j 0 0", "out y 0 0", "out t 0 0", "out d 1
 
 def run(ck, rng):
     exe = build_godriver()
-    forests = enum_forests(4 if ck.tier == "quick" else 6)
+    forests = enum_forests(4 if ck.tier == "quick" else 6) + wide_forests(10 if ck.tier == "quick" else 20)
     for _ in range(700 if ck.tier == "quick" else 25000):
         forests.append(gen_forest(rng, pool=rng.choice(["mixed", "ascii", "hostile_fmt", "fs"])))
     c1, c2, meta = [], [], []
